@@ -129,8 +129,11 @@ func (db *DB) DeleteChannels(chs []ChannelKey) (err error) {
 	// Do a pass first to remove all non-index channels
 	for _, ch := range chs {
 		udb, uok := db.mu.dbs.unary[ch]
+		_, vok := db.mu.dbs.virtual[ch]
 
-		if !uok || udb.Channel().IsIndex {
+		// Virtual channels are removed in this pass as well: they have no unary
+		// database, and skipping them left a deleted virtual channel in the engine.
+		if (!uok && !vok) || udb.Channel().IsIndex {
 			if udb.Channel().IsIndex {
 				indexChannels = append(indexChannels, ch)
 			}
